@@ -502,6 +502,10 @@ def apply_family(X, run, st, normal_conds, extra_guard=None):
         calls = oc.st.np_calls[len(run.base.np_calls) :]
         if calls:
             st.np_calls = st.np_calls + [("family", k, desc, oc.cond, calls)]
+        xc0 = getattr(run.base, "xref_calls", [])
+        xc = getattr(oc.st, "xref_calls", [])[len(xc0) :]
+        if xc:
+            st.xref_calls = list(getattr(st, "xref_calls", [])) + [("family", k, desc, oc.cond, xc)]
     # allocation bookkeeping: new refs created in the body are new for every key
     for oc in run.outcomes:
         for r in oc.st.new_refs[len(run.base.new_refs) :]:
